@@ -21,7 +21,7 @@ def unlimbs(v):
     return sum(b << (8 * i) for i, b in enumerate(v))
 
 
-SEEDS_Q = [0, 1, 2, 3, 7, 2**32 - 1, 2**32, 2**64 // 31, 2**64 // 31 + 1, 2**64 - 1]
+SEEDS_Q = [0, 1, 2, 3, 7, 15, 16, 17, 31, 2**32 - 1, 2**32, 2**64 // 31, 2**64 // 31 + 1, 2**64 - 1]
 SEEDS_T = SEEDS_Q + [4, 5, 6, 31, 255, 256, 2**31, 2**32 + 1, 2**63, 2**64 // 31 - 1, 2**64 + 5, 12345678901234567]
 MODS = [3, 7, 8, 63, 64, 1000, 65536, 4194301]
 
@@ -90,7 +90,7 @@ class Ctx:
         if all(u < 128 for u in units):
             t.check(self.h.fnv_1a(txt, seed) == self.h.fnv_1a(txt.encode("utf-8"), seed) and self.h.fnv_1a_32(txt, seed) == self.h.fnv_1a_32(txt.encode(), seed),
                     "C18", "C18.text_eq_utf8_fnv", ENGINE, rp, sig)
-        if seed < 6:
+        if seed < 40:
             d = self.h.default_fnv_1a(kb, seed + 1)
             t.check(len(d) == seed + 1 and d[-1] == want64, "C18", "C18.default_is_seeded_fnv", ENGINE, lambda: rp(got=d), sig)
         for m, r in zip(MODS, e["mods"]):
@@ -143,7 +143,8 @@ def strategies():
 def record_traces(seed, ntraces, nev):
     rnd = _random.Random(seed)
     S = strategies()
-    pool_txt = ["", "a", "test", "this is a test", "key-17", "z179", "été", "naïve", "中文", "ab€", "~", "\x7f", "AAAA", "hello world"]
+    pool_txt = ["", "a", "test", "this is a test", "key-17", "z179", "été", "naïve", "中文", "ab€", "~", "\x7f", "AAAA", "hello world",
+                "x" * 64, "y" * 65, "\u00fcber-" * 13, "long-key-" * 120, "\u00e9" * 300]
     traces = []
     for ti in range(ntraces):
         ev = []
@@ -155,7 +156,7 @@ def record_traces(seed, ntraces, nev):
             as_text = rnd.random() < 0.5
             ub = txt.encode("utf-8")
             key = txt if as_text else ub
-            d = rnd.choice([1, 1, 2, 3, 4, 6])
+            d = rnd.choice([1, 1, 2, 3, 4, 6, 6, 17, 20, 33])   # deep requests too (Bloom filters with tiny rates use 17+ hashes)
             try:
                 r = fn(key, d)
             except Exception as exc:  # noqa
@@ -190,7 +191,7 @@ def validate_traces(traces, timeout=900):
         if isinstance(j, dict) and "verdict" in j:
             verdicts[j["verdict"]] = j["fails"]
 
-    r = tlc.run_tlc("HashMemo", MEMO_CFG, workers=1, timeout=timeout, on_json=on_json, files={"traces.json": json.dumps(slim)})
+    r = tlc.run_tlc("HashMemo", MEMO_CFG, workers=1, timeout=timeout, on_json=on_json, files={"traces.json": json.dumps(slim)}, stack="1g")
     if len(verdicts) != len(traces):
         raise tlc.MachineryError(f"HashMemo: {len(verdicts)} verdicts for {len(traces)} traces\n" + "\n".join(r.tail[-20:]))
     return verdicts, r
@@ -207,12 +208,15 @@ def run(focus, tier, seed):
     rnd = _random.Random(seed + 77)
     extra = [[rnd.randint(0, 255) for _ in range(rnd.randint(3, 24))] for _ in range(extra_n)]
     extra += [list(b"test"), list(b"this is a test"), list(b"foobar")]
+    # long keys (block-wise or chunked implementations): just below / at / above 64, 256, 1024, 4096 bytes
+    for n in ([63, 64, 65, 128, 255, 256, 257, 1023, 1024, 1025, 4096] if tier == "quick" else [63, 64, 65, 127, 128, 129, 255, 256, 257, 1023, 1024, 1025, 4095, 4096, 4097, 9000]):
+        extra.append([rnd.randint(0, 255) for _ in range(n)])
     jobs = []
     for i in range(nparts):
         jobs.append(dict(module=ref_module(maxlen, extra if i == 0 else [], seeds, nparts, i), cfg=ref_cfg(maxlen, nparts, i), workers=1, timeout=3000,
-                         params={"seeds": seeds}, tag=i))
+                         params={"seeds": seeds}, tag=i, stack="1g"))
     if tier == "thorough":  # the remaining seeds on short keys only
-        jobs.append(dict(module=ref_module(1, extra, SEEDS_T, 1, 0), cfg=ref_cfg(1, 1, 0), workers=1, timeout=3000, params={"seeds": SEEDS_T}, tag="seeds"))
+        jobs.append(dict(module=ref_module(1, extra, SEEDS_T, 1, 0), cfg=ref_cfg(1, 1, 0), workers=1, timeout=3000, params={"seeds": SEEDS_T}, tag="seeds", stack="1g"))
     t, rs = s2c.run_s2c(MOD, focus, jobs, tlc_parallel=14)
     total.merge(t)
     agg = {"spec": "HashRef", "constants": {"MaxLen": maxlen, "seeds": len(seeds), "extra_keys": len(extra)}, "mode": "exhaustive+emit", "generated": 0, "distinct": 0, "wall_s": 0, "ok": True}
